@@ -15,7 +15,7 @@ from .pubsub import PubSubRun, PROFILES, payload_for
 PROFILES["C06"] = dict(notw=[(0, 1)], ops=1, edge_types=False, leave_w=0, ctl_w=0, pub_w=1, noise_w=0,
                        clock_w=0)
 T = 1500
-IDS = [0, 0, 0, 10, 11, 12, 1, 99, 100, 101, 200, -1, 32767]
+IDS = [0, 0, 0, 10, 11, 12, 1, 99, 100, 101, 200, -1, 32767, 4, 5, 4]
 NAMES = [b"", b"", b"shared", b"shared", b"alpha", b"beta", b"message_manager"]
 
 
@@ -452,11 +452,18 @@ class IdentityRun(PubSubRun):
         reads_by_conn = {}
         for fr in net.reads:
             reads_by_conn.setdefault(fr.conn, []).append(fr)
+        # documented auto-naming: a client constructed with an id from the MID table and no name takes
+        # that table's name
+        import pyrtma.context
+        auto = {v: k.encode() for k, v in pyrtma.context.get_context().MID.items()}
         for att in self.attempts:
             p = att.get("part")
             if p is None or att.get("conn") is None:
                 continue
             o = att["opts"]
+            eff_name = o["name"]
+            if att["via"] in ("client", "context") and not eff_name and o["rid"] != 0:
+                eff_name = auto.get(o["rid"], b"")
             conn = att["conn"]
             frs = reads_by_conn.get(conn, [])
             if att["via"] in ("client", "context"):
@@ -466,7 +473,7 @@ class IdentityRun(PubSubRun):
                     lg, dm, am, mid, pid, name = struct.unpack_from("<hhhhi32s", v2[0].payload)
                     name = name.split(b"\0", 1)[0]
                     res.probes["wire_options_checked"] += 1
-                    want = (int(o["logger"]), int(o["daemon"]), int(o["multi"]), o["rid"], o["name"])
+                    want = (int(o["logger"]), int(o["daemon"]), int(o["multi"]), o["rid"], eff_name)
                     got = (lg, dm, am, mid, name)
                     if got != want:
                         res.add("C06", "option_on_wire",
@@ -492,7 +499,7 @@ class IdentityRun(PubSubRun):
                 if att["via"] == "raw_v1":
                     uniq, nm, lgr = True, b"", o["logger"]
                 else:
-                    nm, lgr = o["name"], o["logger"]
+                    nm, lgr = eff_name, o["logger"]
                 res.probes["client_info_checked"] += 1
                 if (bool(ci.is_logger), bool(ci.is_unique), ci.name, ci.mod_id) != (bool(lgr), uniq, nm[:32], att["acked_id"]):
                     res.add("C06", "option_at_manager",
